@@ -225,6 +225,7 @@ func (s *Sim) waitFor(cond func() bool, what string) {
 func (s *Sim) call(c int, op Op) OpResult {
 	cl := s.clients[c]
 	cl.done = false
+	idle0 := s.workerIdle
 	b, _ := json.Marshal(op)
 	writeFrame(cl.cmdW, b)
 	s.waitFor(func() bool { return cl.done }, fmt.Sprintf("client %d op %s", c, op.K))
@@ -232,6 +233,11 @@ func (s *Sim) call(c int, op Op) OpResult {
 	var r OpResult
 	if ok {
 		json.Unmarshal(rb, &r)
+	}
+	if op.K == "New" && ok && r.Err == "" {
+		// a new service starts its tag event worker, which reports idle once on
+		// its own; that report must not be taken for the end of a later tick
+		s.waitFor(func() bool { return s.workerIdle > idle0 }, "tag event worker start")
 	}
 	return r
 }
